@@ -7,7 +7,10 @@ require (
 	pgregory.net/rapid v1.3.0
 )
 
-require github.com/PelicanPlatform/classad v0.4.0
+require (
+	github.com/PelicanPlatform/classad v0.4.0
+	golang.org/x/crypto v0.53.0
+)
 
 require (
 	github.com/golang-jwt/jwt/v5 v5.3.0 // indirect
@@ -18,7 +21,6 @@ require (
 	github.com/jcmturner/gokrb5/v8 v8.4.4 // indirect
 	github.com/jcmturner/rpc/v2 v2.0.3 // indirect
 	github.com/pkg/errors v0.9.1 // indirect
-	golang.org/x/crypto v0.53.0 // indirect
 	golang.org/x/net v0.55.0 // indirect
 )
 
